@@ -1,7 +1,7 @@
 (* C08 — packet identifiers: unique while in use, released exactly once, never leaked.
-   Statements only; proofs in Conn/IdsQuota.v (on top of the allocator refinement of C20).
+   Statements only; proofs in Conn/IdsQuota.v (on top of the allocator refinement of C20) and Conn/WfInv.v.
    Nothing else may be added to this file. *)
-From MQ Require Import Base.Prelude Alloc.Alloc Alloc.AllocProofs Conn.Types Conn.ConnRecord Conn.Step Conn.IdsQuota.
+From MQ Require Import Base.Prelude Alloc.Alloc Alloc.AllocProofs Conn.Types Conn.ConnRecord Conn.Step Conn.Run Conn.IdsQuota Conn.WfInv.
 
 (* WFpid (the interval allocator's representation invariant over [1, idmax]) holds initially and
    is re-established by each of the id-management calls below. *)
@@ -54,10 +54,36 @@ Theorem C08_release_spec : forall g c id,
 Proof. exact release_spec. Qed.
 Print Assumptions C08_release_spec.
 
-(* C08_partial: the per-call accounting "released events = ids that turn free" for EVERY call
-   (sends, acknowledgements, close, resume) and the no-leak-on-close clause are checked by the
-   monitor mon_c08 on the implementation's traces (with the in-use set from the hook) and by the
-   projection correspondence; they are not yet theorems about the model. *)
+(* WFpid over histories: EVERY call of the API keeps the allocator's representation invariant — acquire,
+   register, every release the library announces (each guarded by "is in use"), the wholesale reset at
+   a new session, the drains at notify_closed — for every input of the peer and every argument of the
+   application, with ONE exception that the hypothesis names: the identifiers of stored packets that
+   are dropped as oversize on resume are released without that guard ([drops_nothing]: the call is not
+   a CONNACK sent / received under whose limit a stored packet no longer fits).  Hence the per-call
+   theorems above, which assume WFpid, apply in every state of every such history of a fresh object. *)
+Theorem C08_step_keeps_WFpid : forall g c o,
+  op_oracle_ok c o -> drops_nothing c o = true -> WFpid g c ->
+  match step g c o with Ok (c', _, _) => WFpid g c' | Panic _ => True end.
+Proof. exact step_keeps_WFpid. Qed.
+Print Assumptions C08_step_keeps_WFpid.
+
+Theorem C08_WFpid_invariant : forall g ops c,
+  WFpid g c -> history_drops_nothing g c ops ->
+  match run_state g c ops with Some c' => WFpid g c' | None => True end.
+Proof. exact WFpid_invariant. Qed.
+Print Assumptions C08_WFpid_invariant.
+
+Theorem C08_fresh_WFpid_invariant : forall g v ops,
+  1 <= g_idmax g -> history_drops_nothing g (conn_new g v) ops ->
+  match run_state g (conn_new g v) ops with Some c' => WFpid g c' | None => True end.
+Proof. exact fresh_WFpid_invariant. Qed.
+Print Assumptions C08_fresh_WFpid_invariant.
+
+(* C08_partial: the per-call accounting "released events = ids that turn free" for the calls other
+   than the id-management ones, the no-leak-on-close clause, and WFpid across an oversize drop on
+   resume (which needs the ownership invariant "stored identifiers are in use and distinct" under the
+   application contract) are checked by the monitor mon_c08 on the implementation's traces (with the
+   in-use set from the hook) and by the projection correspondence. *)
 
 Example C08_nonvacuous :
   let g := mkCfg RClient 65535 2 in
@@ -72,3 +98,11 @@ Example C08_nonvacuous :
   | Panic _ => False
   end.
 Proof. vm_compute. repeat split. Qed.
+
+(* the history theorem's premises are satisfiable *)
+Example C08_history_nonvacuous :
+  let g := mkCfg RClient 65535 2 in
+  let ops := [OAcquire; OAcquire; ORelease 1; ORegister 7; OClosed; OAcquire] in
+  history_drops_nothing g (conn_new g V311) ops /\
+  match run_state g (conn_new g V311) ops with Some c' => is_used c' 2 = true /\ is_used c' 1 = true | None => False end.
+Proof. vm_compute. repeat split; reflexivity. Qed.
